@@ -628,5 +628,45 @@ def r10_exec(ctx):
     ctx.floor('R10.8-sleeps', audit['totals']['sleep'], 2)
 
 
-RULES = [('R10.8', r10_exec), ('R10.9', r10_abandoned), ('R10.1', r10_1), ('R10.2', r10_2), ('R10.3', r10_3), ('R10.4', r10_4), ('R10.5', r10_5), ('R10.6', r10_6), ('R10.7', r10_7)]
+def r10_shared_args(ctx):
+    """R10.10: the module-level fan-in / fan-out helpers work on a list of ports the caller may share with other threads (the
+    ports attribute of a MultiPort, a list polled by two receivers): they must not permute or otherwise change that very list -
+    a shuffle in place while another thread iterates it makes one port come up twice and another not at all."""
+    from ..absint import AList, log_event
+    n = 0
+    for fname, extra in (('multi_receive', {'block': False}), ('multi_iter_pending', {}), ('multi_send', None)):
+        try:
+            fn = ctx.fn(ctx.p.func(P, fname))
+        except AnalysisError:
+            continue
+        ai = pm.make_interp(ctx)
+        pm.device_double(ai, ctx)
+        holder = {}
+
+        def thunk(fn=fn, extra=extra):
+            a = pm.new_port(ai, ctx, 'EchoPort', [], {})
+            b = pm.new_port(ai, ctx, 'EchoPort', [], {})
+            a.attrs['_messages'].items.append(pm.note(ctx, 50))
+            lst = AList([a, b], 'list')
+            holder['lst'], holder['items'] = lst, [a, b]
+            log_event('phase', 'run')
+            if extra is None:
+                return ai.call_function(fn, [lst, pm.note(ctx, 7)], {})
+            return ai.consume(ai.call_function(fn, [lst], dict(extra)))
+        outs = ai.explore(thunk)
+        n += 1
+        w = ctx.where(fn)
+        ok = len(outs) == 1 and outs[0].kind == 'return'
+        ctx.require(ok, 'R10.10', f'{fname}(list of ports)', w, f'{fname} on a list of two ports: {outs}', construct=f'{fn.qname}::outcomes')
+        if not ok:
+            continue
+        touched = [e for e in outs[0].log if e[0] == 'shuffle' and e[1] is holder['lst']]
+        same = len(holder['lst'].items) == 2 and all(x is y for x, y in zip(holder['lst'].items, holder['items']))
+        ctx.require(not touched and same, 'R10.10', f'{fname}(list of ports).argument-untouched', w,
+                    f'{fname} changes the list of ports it is given ({"shuffled in place" if touched else "items changed"}): a list shared with '
+                    'another thread is permuted under its feet - a port is visited twice, another never', construct=f'{fn.qname}::mutates-argument')
+    ctx.floor('R10.10', n, 2)
+
+
+RULES = [('R10.10', r10_shared_args), ('R10.8', r10_exec), ('R10.9', r10_abandoned), ('R10.1', r10_1), ('R10.2', r10_2), ('R10.3', r10_3), ('R10.4', r10_4), ('R10.5', r10_5), ('R10.6', r10_6), ('R10.7', r10_7)]
 THOROUGH_RULES = [('R10-backends', r10_backends)]
